@@ -43,6 +43,7 @@ type runner struct {
 	logs      map[string]simcore.Hash64
 	trace     bool
 	scheduled bool // main actor runs under the scheduler (gates at step boundaries)
+	stop      bool // a recorded finding was hit: the model can no longer follow, end the run quietly
 
 	// journal written by the last clean shutdown
 	journal *journalSnap
@@ -60,6 +61,15 @@ func newRunner(p *Plan, w *world, res *simcore.Result) *runner {
 	rn.lives[rn.m.base] = []*life{{born: true}}
 	rn.everCanon[rn.m.base] = true
 	return rn
+}
+
+var probeMu sync.Mutex
+
+// probe counts a rare-branch probe (actors call it concurrently).
+func (rn *runner) probe(name string) {
+	probeMu.Lock()
+	rn.res.Probes[name]++
+	probeMu.Unlock()
 }
 
 func (rn *runner) tracef(format string, a ...any) {
@@ -80,7 +90,22 @@ func (rn *runner) fail(v *simcore.Violation) *simcore.Violation {
 func (rn *runner) failed() bool {
 	rn.mu.Lock()
 	defer rn.mu.Unlock()
-	return rn.viol != nil
+	return rn.viol != nil || rn.stop
+}
+
+// finding reports a defect of the tree under test that has its own stable key.
+// If the key is a recorded finding the run is ended quietly (the model cannot
+// follow the database past it), otherwise it is a violation.
+func (rn *runner) finding(kind, format string, a ...any) *simcore.Violation {
+	key := "stale-parent-link:" + kind
+	if simcore.IsKnown(key) || os.Getenv("PDB_ASSUME_KNOWN") != "" { // env: development aid only
+		rn.mu.Lock()
+		rn.res.KnownHit(key)
+		rn.stop = true
+		rn.mu.Unlock()
+		return nil
+	}
+	return &simcore.Violation{Oracle: "stale-parent-link", Key: key, Msg: fmt.Sprintf(format, a...)}
 }
 
 // logf appends to the actor's own observation log (determinism fingerprint).
@@ -104,13 +129,30 @@ func (rn *runner) gate(label string) {
 
 // ---- selectors (call with rn.mu held)
 
-func (rn *runner) tip() common.Hash {
+// usable returns the live roots operations may build on: all of them, or (most
+// runs) only those that are not orphan-linked, so that the recorded finding does
+// not end every forked run early.
+func (rn *runner) usable() []common.Hash {
 	lr := rn.m.liveRoots()
+	if rn.p.OrphanOK {
+		return lr
+	}
+	var out []common.Hash
+	for _, r := range lr {
+		if !rn.m.layers[r].orphan {
+			out = append(out, r)
+		}
+	}
+	return out
+}
+
+func (rn *runner) tip() common.Hash {
+	lr := rn.usable()
 	return lr[len(lr)-1]
 }
 
 func (rn *runner) selLive(sel int) common.Hash {
-	lr := rn.m.liveRoots()
+	lr := rn.usable()
 	if sel <= 0 {
 		return lr[len(lr)-1]
 	}
@@ -310,23 +352,33 @@ func (rn *runner) update(pst, child *state) *simcore.Violation {
 	rn.mu.Lock()
 	rn.endMut(t0)
 	rn.logf("M", "upd #%d on #%d outcome=%d flat=%d err=%v", child.idx, pst.idx, outcome, len(flat), err != nil)
+	// the capped chain passes an orphan link: either a flattened layer is one, or
+	// the new head hangs above one (the tree under test then still sees the old,
+	// already flattened diff layer below it and tries to flatten that again)
+	capOrphan := rn.m.capOrphan
+	if l := rn.m.layers[child.root]; l != nil && l.orphan {
+		capOrphan = true
+	}
 	rn.mu.Unlock()
 	if v != nil {
 		return v
 	}
+	if capOrphan && err != nil {
+		return rn.finding("flatten", "Update(#%d on #%d) had to flatten a layer that was a fork child of an earlier flattened layer (still in the layer tree, parent pointer left on the stale pre-flatten layer) and failed: %v", child.idx, pst.idx, err)
+	}
 	if len(flat) > 0 {
-		rn.res.Probe("flatten")
+		rn.probe("flatten")
 	}
 	switch outcome {
 	case updReject:
 		if child.root == pst.root {
-			rn.res.Probe("empty-transition")
+			rn.probe("empty-transition")
 			if err == nil {
 				return simcore.Violf("empty-transition-accepted", "Update(root=%x, parent=%x) with root == parent returned nil", child.root[:4], pst.root[:4])
 			}
 		}
 	case updSkipped:
-		rn.res.Probe("repeated-root")
+		rn.probe("repeated-root")
 		if err != nil {
 			return simcore.Violf("update-failed", "Update with the root of an existing layer (#%d %x on #%d) failed: %v", child.idx, child.root[:4], pst.idx, err)
 		}
@@ -357,14 +409,18 @@ func (rn *runner) commit(sel int) *simcore.Violation {
 	rn.mu.Lock()
 	rn.endMut(t0)
 	rn.logf("M", "commit #%d disk=%v flat=%d err=%v", st.idx, isDisk, len(flat), err != nil)
+	capOrphan := !isDisk && rn.m.capOrphan
 	rn.mu.Unlock()
 	if v != nil {
 		return v
 	}
+	if capOrphan && err != nil {
+		return rn.finding("flatten", "Commit(#%d), a live layer that was a fork child of an earlier flattened layer (parent pointer left on the stale pre-flatten layer), failed: %v", st.idx, err)
+	}
 	if isDisk {
 		return rn.checkTree("after refused Commit")
 	}
-	rn.res.Probe("commit")
+	rn.probe("commit")
 	if err != nil {
 		return simcore.Violf("commit-failed", "Commit(#%d %x) of a live diff layer failed: %v", st.idx, root[:4], err)
 	}
@@ -643,6 +699,10 @@ func (rn *runner) read(actor string, rd Read, certain bool) *simcore.Violation {
 	if v != nil {
 		return v
 	}
+	orphan := false
+	if l := rn.m.layers[root]; l != nil {
+		orphan = l.orphan
+	}
 	var live, dead bool
 	if certain {
 		live = rn.m.live(root)
@@ -653,7 +713,9 @@ func (rn *runner) read(actor string, rd Read, certain bool) *simcore.Violation {
 	// a held reader or an iterator may legitimately fail when any tree change
 	// overlapped its lifetime (its base layer went stale)
 	overlapped := rn.opStarted != doneAtInv
-	mustSucceed := live && !((rd.Held || isIter) && overlapped)
+	// (a sweep by a reader actor uses one reader object across many gated reads: it
+	// is a held reader)
+	mustSucceed := live && !((rd.Held || isIter || rd.Kind == 3) && overlapped)
 	kindName := [...]string{"account", "slot", "node", "sweep", "account-iterator", "storage-iterator", "binary-account-iterator", "binary-storage-iterator"}[rd.Kind]
 	where := fmt.Sprintf("%s read (%s) at state #%d root %x (live=%v dead=%v held=%v)", actor, kindName, st.idx, root[:4], live, dead, rd.Held)
 
@@ -662,7 +724,7 @@ func (rn *runner) read(actor string, rd Read, certain bool) *simcore.Violation {
 		if mustSucceed || (live && !isIter) {
 			return simcore.Violf("live-root-unreadable", "%s: opening the reader failed although the root was in the layer tree for the whole call: %v", where, openErr)
 		}
-		rn.res.Probe("dropped-root-refused")
+		rn.probe("dropped-root-refused")
 		return nil
 	}
 	if dead && !isIter {
@@ -672,22 +734,32 @@ func (rn *runner) read(actor string, rd Read, certain bool) *simcore.Violation {
 		return simcore.Violf("dropped-root-readable", "%s: an iterator was handed out for a root that is not in the layer tree", where)
 	}
 	if live {
-		rn.res.Probe("live-read")
+		rn.probe("live-read")
 	}
 	sum := simcore.NewHash()
 	for _, o := range out {
+		if o.absent {
+			// an error or an empty answer are both right for a path that holds no node
+			if o.err == nil && len(o.got) != 0 {
+				return simcore.Violf("wrong-node", "%s: %s returned %d bytes, the state has no node there", where, o.what, len(o.got))
+			}
+			continue
+		}
 		if o.err != nil {
 			sum = sum.String("E")
+			if mustSucceed && orphan && len(o.what) > 4 && o.what[:4] == "node" {
+				rn.mu.Unlock()
+				v := rn.finding("node-read", "%s: %s failed: %v. The root is in the layer tree, but the layer was a fork child of a layer that got flattened: its parent pointer still leads to the stale pre-flatten disk layer, so every node not written by the fork itself is unreadable", where, o.what, o.err)
+				rn.mu.Lock()
+				if v != nil {
+					return v
+				}
+				continue
+			}
 			if mustSucceed {
 				return simcore.Violf("live-root-unreadable", "%s: %s failed although the root was in the layer tree for the whole call: %v", where, o.what, o.err)
 			}
-			rn.res.Probe("read-error-on-dropped-root")
-			continue
-		}
-		if o.absent {
-			if len(o.got) != 0 {
-				return simcore.Violf("wrong-node", "%s: %s returned %d bytes, the state has no node there", where, o.what, len(o.got))
-			}
+			rn.probe("read-error-on-dropped-root")
 			continue
 		}
 		sum = sum.Bytes(o.got).String("|")
@@ -723,13 +795,13 @@ func (rn *runner) read(actor string, rd Read, certain bool) *simcore.Violation {
 			if mustSucceed {
 				return simcore.Violf("iterator-failed", "%s seek=%d: iteration failed after %d entries although no layer changed during it: %v", where, rd.Seek, len(itGot), itErr)
 			}
-			rn.res.Probe("iterator-failed-on-stale-base")
+			rn.probe("iterator-failed-on-stale-base")
 		} else if len(itGot) != len(itWant) {
 			return simcore.Violf("iterator-incomplete", "%s seek=%d: iteration ended without error after %d of %d entries", where, rd.Seek, len(itGot), len(itWant))
 		} else {
-			rn.res.Probe("iterator-complete")
+			rn.probe("iterator-complete")
 			if len(itWant) > 0 {
-				rn.res.Probe("iterator-nonempty")
+				rn.probe("iterator-nonempty")
 			}
 		}
 	}
@@ -841,6 +913,6 @@ func (rn *runner) diskCheck(wait bool) *simcore.Violation {
 	if d != "" {
 		return simcore.Violf("disk-image", "key-value store at persistent state id %d (state #%d root %x) is not that state: %s", pid, st.idx, st.root[:4], d)
 	}
-	rn.res.Probe("disk-image-checked")
+	rn.probe("disk-image-checked")
 	return nil
 }
